@@ -33,6 +33,10 @@ unsafe impl GlobalAlloc for Instr {
                 return std::ptr::null_mut();
             }
             let p = System.alloc(layout);
+            if !p.is_null() {
+                // fresh memory is poison-filled (compared with the model's Uninit cells)
+                std::ptr::write_bytes(p, 0xCD, layout.size());
+            }
             with_reg(|r| {
                 r.log.push(Ev::A(layout.size(), layout.align()));
                 if layout.size() == 0 {
@@ -92,6 +96,7 @@ unsafe impl GlobalAlloc for Instr {
             // always move: allocate fresh, copy, free (makes stale pointers visible)
             let nl = Layout::from_size_align_unchecked(new_size, layout.align());
             let p = System.alloc(nl);
+            std::ptr::write_bytes(p, 0xCD, new_size);
             std::ptr::copy_nonoverlapping(ptr, p, layout.size().min(new_size));
             std::ptr::write_bytes(ptr, 0xDD, layout.size());
             System.dealloc(ptr, layout);
